@@ -181,7 +181,7 @@ def reference():
 
 
 def rule_ref():
-    return ident
+    return qualified_ident
 
 
 # TODO: Remove "|" optional sep in version 4.0.
